@@ -29,8 +29,9 @@ def _csum (b):
   while s >> 16: s = (s & 0xffff) + (s >> 16)
   return (~s) & 0xffff
 
-def udp_frame (src, dst, tag=0):
-  pay = bytes([tag]) * 26
+def udp_frame (src, dst, tag=0, size=120):
+  # longer than the switch's miss_send_len (128): a packet-in that is cut short shows
+  pay = bytes([tag]) * size
   sip, dip = 0x0a000000 + src[5], 0x0a000000 + dst[5]
   u = struct.pack("!HHHH", 1000 + src[5], 2000 + dst[5], 8 + len(pay), 0) + pay
   c = _csum(struct.pack("!LLBBH", sip, dip, 0, 17, len(u)) + u) or 0xffff
@@ -47,6 +48,8 @@ CONFIGS = {
   "1sw": dict(nports=[4], links=[], hosts={1: (0, 1), 2: (0, 2), 3: (0, 3)}, spare=(0, 4)),
   # two switches in a line: s0 ports 1,2 hosts, 3 link; s1 ports 1,2 hosts, 3 link, 4 spare
   "2sw": dict(nports=[3, 4], links=[((0, 3), (1, 3))], hosts={1: (0, 1), 2: (0, 2), 3: (1, 1)}, spare=(1, 4)),
+  # one switch; additionally bursts: several frames arrive before the controller has answered the first
+  "1swb": dict(nports=[4], links=[], hosts={1: (0, 1), 2: (0, 2), 3: (0, 3)}, spare=(0, 4), burst=True),
   "3sw": dict(nports=[3, 3, 4], links=[((0, 3), (1, 2)), ((1, 3), (2, 3))], hosts={1: (0, 1), 2: (1, 1), 3: (2, 1)}, spare=(2, 4)),
 }
 
@@ -62,6 +65,13 @@ def stimuli (cfg):
   # destination was learned on
   out += [("tx", 4, "h1"), ("tx", 4, "bcast"), ("tx", 1, "h4"), ("tx", 2, "h4")]
   out += [("move", 1), ("tick", 11), ("tick", 31)]
+  if cfg.get("burst"):
+    for s in hs[:2]:
+      ds = ["h%d" % d for d in hs if d != s] + ["bcast"]
+      for d1 in ds:
+        for d2 in ds:
+          if d1 != d2: out.append(("burst", s, d1, d2))
+      out.append(("burst", s, ds[0], ds[1], ds[2]))
   return out
 
 
@@ -109,6 +119,7 @@ class World (object):
       else:
         self.where[op[1]] = self.cfg["hosts"][op[1]]; self.moved = False
       return ("move", self.where[op[1]])
+    if op[0] == "burst": return self.apply_burst(op)
     _, s, d = op
     if s == 4: self.where[4] = self.where[1]
     src = mac(s)
@@ -132,6 +143,30 @@ class World (object):
       if f != frame: self.fail("frame-altered", "a host received a frame that differs from the one sent")
     self.check_buffers()
     return ("tx", tuple(obs), tuple(sorted(seenp)))
+
+  def apply_burst (self, op):
+    """Host s sends frames to several destinations back to back; the controller only gets to react after the last
+    one has arrived (single switch).  The ideal bridge handles them one after the other."""
+    net = self.net
+    s, dsts = op[1], op[2:]
+    src = mac(s)
+    frames = []
+    for n, d in enumerate(dsts):
+      frames.append(udp_frame(src, self.dst_mac(d), tag=0x40 + n, size=150 + 8 * n))
+    i, p = self.where[s]
+    try:
+      recs, trace, delivered = net.inject_burst(i, [(p, f) for f in frames])
+    except RuntimeError as e:
+      self.fail("loop", str(e)); return ("loop",)
+    obs = []
+    for rec, f, d in zip(recs, frames, dsts):
+      ems = [(port, g) for (sw, port, g) in delivered if g == f]
+      self.judge(rec[0], rec[1], f, ems, rec[4], d, None)
+      obs.append((sorted(q for q, _ in ems), rec[4]))
+    for (sw, port, g) in delivered:
+      if g not in frames: self.fail("frame-altered", "a host received a frame that differs from every frame sent (%d bytes; sent %r)" % (len(g), [len(f) for f in frames]))
+    self.check_buffers()
+    return ("burst", tuple(map(repr, obs)))
 
   def judge (self, sw, inp, frame, ems, missed, dkind, absorbed=None):
     dst, src = frame[:6], frame[6:12]
@@ -218,13 +253,14 @@ def run (cfg):
   boot()
   rep = Report(PID, "model_checking")
   depth = cfg.pick(5, 7)
-  plans = [("1sw", 4, depth), ("1sw", 0, depth), ("2sw", 4, depth), ("2sw", 0, depth - 1)]
+  plans = [("1sw", 4, depth), ("1sw", 0, depth), ("2sw", 4, depth), ("2sw", 0, depth - 1), ("1swb", 1, depth - 2), ("1swb", 2, depth - 2)]
   if not cfg.quick: plans += [("3sw", 4, depth - 1), ("2sw", 1, depth - 1)]
   for cname, buffers, d in plans:
     bfs(make_expand(cname, buffers), d, rep, workers=cfg.workers, seed=cfg.seed, max_states=cfg.pick(200000, 2000000), chunk=16)
   rep.rule = ("breadth-first search with state matching over all sequences of <=%d host stimuli {frame from each of 3 hosts to each "
               "other host / an unknown unicast address / broadcast / IPv4 multicast / 01:80:c2:00:00:00 / LLDP, host 1 moves to a spare port "
-              "and back, clock +11 s and +31 s followed by an expiry sweep} on %s, switch buffering on (4 slots) and off; every dataplane "
+              "and back, clock +11 s and +31 s followed by an expiry sweep; in the 1swb plans also bursts of 2-3 frames (>128 bytes) that arrive before "
+              "the controller answers, with 1 or 2 buffer slots} on %s, switch buffering on (4 slots) and off; every dataplane "
               "arrival at every switch is judged against the ideal learning bridge; distinct = (last stimulus, per-arrival emissions)"
               % (depth, ", ".join("%s/%d buffers depth %d" % p for p in plans)))
   rep.bound = dict(depth=depth, plans=[list(p) for p in plans])
